@@ -42,3 +42,226 @@ func init() {
 		return p
 	}
 }
+
+// e1p mirrors w.E1Params.
+type e1p struct {
+	wp
+	Oracles []string `json:"oracles"`
+}
+
+func e1run(name, typ string, n, depth int, alpha string, oracles []string, orders []int32, prefix string, maxState int) Run {
+	return Run{Name: name, Check: "E1", Depth: depth, MaxState: maxState,
+		Params: e1p{wp: wp{Type: typ, N: n, Alpha: alpha, Orders: orders, Prefix: prefix}, Oracles: oracles}}
+}
+
+func init() {
+	plans["C01"] = func(tier string) Plan {
+		p := Plan{ID: "C01", Level: "model_checking",
+			Rule: "breadth-first search over all histories of {local call on replica i, sync(i)} (sync = pull the log after the cursor in log order, then push); " +
+				"state = canonical export of every replica + pending operations + log + cursors; at the quiescence closure of EVERY state all replicas and a " +
+				"server copy (whole log as remote operations) must expose equal JSON view, sizes and element reads; non-trivial = some replica has both issued " +
+				"local operations and applied another replica's operations; document runs also enumerate the map-iteration order per replica (sorted/reversed)",
+			Assume: []string{assumeE1, assumeInstr}}
+		o := []string{"converge"}
+		if tier == "quick" {
+			p.BudgetS = 300
+			p.Runs = []Run{
+				e1run("counter-n2-d5", "counter", 2, 5, "", o, nil, "", 0),
+				e1run("map-n2-d5", "map", 2, 5, "", o, nil, "", 0),
+				e1run("list-n2-d4", "list", 2, 4, "", o, nil, "", 0),
+				e1run("doc-n2-d4", "doc", 2, 4, "", o, nil, "", 0),
+				e1run("doc-n2-d4-order01", "doc", 2, 4, "", o, []int32{0, 1}, "", 0),
+				e1run("docnest-n2-d5-order01", "doc", 2, 5, "nest", o, []int32{0, 1}, "", 0),
+				e1run("docnest-n2-d5-order10", "doc", 2, 5, "nest", o, []int32{1, 0}, "", 0),
+			}
+		} else {
+			p.BudgetS = 3300
+			p.Runs = []Run{
+				e1run("counter-n3-d6", "counter", 3, 6, "rich", o, nil, "", 0),
+				e1run("map-n2-d7", "map", 2, 7, "rich", o, nil, "", 600000),
+				e1run("map-n3-d5", "map", 3, 5, "", o, nil, "", 600000),
+				e1run("list-n2-d6", "list", 2, 6, "batch", o, nil, "", 600000),
+				e1run("list-n3-d5", "list", 3, 5, "", o, nil, "", 600000),
+				e1run("list-deep-n2-d3", "list", 2, 3, "", o, nil, "deep-list", 0),
+				e1run("doc-n2-d5", "doc", 2, 5, "", o, nil, "", 600000),
+				e1run("doc-n2-d4-order01", "doc", 2, 4, "rich", o, []int32{0, 1}, "", 600000),
+				e1run("doc-n2-d4-order10", "doc", 2, 4, "rich", o, []int32{1, 0}, "", 600000),
+				e1run("doc-n3-d4", "doc", 3, 4, "", o, nil, "", 600000),
+				e1run("doc-deep-n2-d3", "doc", 2, 3, "", o, nil, "deep-doc", 0),
+			}
+		}
+		return p
+	}
+	plans["C02"] = func(tier string) Plan {
+		p := Plan{ID: "C02", Level: "model_checking",
+			Rule: "same search as C01 with alphabets biased to one shared key / position; at the closure of every state each replica and the server copy " +
+				"must equal a reference computed from the SET of emitted operations only (sum; per-key greatest timestamp; RGA tree with newest-first siblings, " +
+				"per-element newest update, delete dominates); non-trivial as in C01",
+			Assume: []string{assumeE1, assumeInstr, "reference in h/w/c02.go resolves document containers only when they are the top-level value of the creating operation"}}
+		o := []string{"reference"}
+		if tier == "quick" {
+			p.BudgetS = 300
+			p.Runs = []Run{
+				e1run("counter-n2-d5", "counter", 2, 5, "", o, nil, "", 0),
+				e1run("map-n2-d5", "map", 2, 5, "", o, nil, "", 0),
+				e1run("list-n2-d4", "list", 2, 4, "", o, nil, "", 0),
+				e1run("doc-n2-d4", "doc", 2, 4, "c02", o, nil, "", 0),
+			}
+		} else {
+			p.BudgetS = 3300
+			p.Runs = []Run{
+				e1run("counter-n3-d6", "counter", 3, 6, "rich", o, nil, "", 0),
+				e1run("counter-n4-d4", "counter", 4, 4, "", o, nil, "", 0),
+				e1run("map-n2-d7", "map", 2, 7, "rich", o, nil, "", 600000),
+				e1run("map-n3-d5", "map", 3, 5, "", o, nil, "", 600000),
+				e1run("map-n4-d4", "map", 4, 4, "", o, nil, "", 600000),
+				e1run("list-n2-d6", "list", 2, 6, "batch", o, nil, "", 600000),
+				e1run("list-n3-d5", "list", 3, 5, "", o, nil, "", 600000),
+				e1run("list-n4-d4", "list", 4, 4, "", o, nil, "", 600000),
+				e1run("doc-n2-d5", "doc", 2, 5, "c02", o, nil, "", 600000),
+				e1run("doc-n3-d4", "doc", 3, 4, "c02", o, nil, "", 600000),
+			}
+		}
+		return p
+	}
+	plans["C04"] = func(tier string) Plan {
+		p := Plan{ID: "C04", Level: "model_checking",
+			Rule: "breadth-first search over insert/delete/update histories (single and batch) on List and Document arrays; after EVERY step on EVERY replica: " +
+				"each element whose insert was received and no delete received is visible exactly once (by unique tags), no deleted or unknown element is visible, " +
+				"a local insert reads back at its index, the internal total order restricted to earlier elements is unchanged by the step, and all replicas " +
+				"agree on the relative order of common elements; non-trivial as in C01",
+			Assume: []string{assumeE1, assumeInstr}}
+		o := []string{"elements", "converge"}
+		if tier == "quick" {
+			p.BudgetS = 300
+			p.Runs = []Run{
+				e1run("list-n2-d4", "list", 2, 4, "batch", o, nil, "", 0),
+				e1run("docarr-n2-d5", "doc", 2, 5, "arr", o, nil, "", 0),
+			}
+		} else {
+			p.BudgetS = 3300
+			p.Runs = []Run{
+				e1run("list-n2-d6", "list", 2, 6, "batch", o, nil, "", 600000),
+				e1run("list-n3-d5", "list", 3, 5, "", o, nil, "", 600000),
+				e1run("list-n4-d4", "list", 4, 4, "", o, nil, "", 600000),
+				e1run("list-deep-n2-d3", "list", 2, 3, "batch", o, nil, "deep-list", 0),
+				e1run("docarr-n2-d5", "doc", 2, 5, "arr", o, nil, "", 600000),
+				e1run("docarr-n3-d4", "doc", 3, 4, "arr", o, nil, "", 600000),
+				e1run("docarr-deep-n2-d3", "doc", 2, 3, "arr", o, nil, "deep-doc", 0),
+			}
+		}
+		return p
+	}
+}
+
+func e1runS(name, typ string, n, depth int, alpha string, oracles []string, maxSkips, maxState int) Run {
+	return Run{Name: name, Check: "E1", Depth: depth, MaxState: maxState,
+		Params: struct {
+			e1p
+			MaxSkips int `json:"max_skips"`
+		}{e1p{wp: wp{Type: typ, N: n, Alpha: alpha}, Oracles: oracles}, maxSkips}}
+}
+
+func init() {
+	plans["C09"] = func(tier string) Plan {
+		p := Plan{ID: "C09", Level: "model_checking",
+			Rule: "breadth-first search over histories whose alphabet adds Transaction(body) for bodies {c}, {c,c0}, {c,invalid call}, committed or failing after the calls ran, " +
+				"and deliveries of the next committed unit truncated to its first m operations or with an over-announced length; oracles: a failing body leaves view, export, " +
+				"pending operations and identifiers exactly as before AND every later state equals the state of the twin history without the failed transaction; a committed body " +
+				"queues one unit [header(n), n-1 operations] with consecutive seq; an incomplete unit returns an error, does not panic and changes nothing",
+			Assume: []string{assumeE1, assumeInstr, "at most max_skips failed transactions / refused units per history (1 quick, 2 thorough)"}}
+		o := []string{"tx", "badunit", "converge"}
+		if tier == "quick" {
+			p.BudgetS = 300
+			p.Runs = []Run{
+				e1runS("counter-n2-d4", "counter", 2, 4, "tx", o, 1, 0),
+				e1runS("map-n2-d4", "map", 2, 4, "tx", o, 1, 0),
+				e1runS("list-n2-d3", "list", 2, 3, "tx", o, 1, 0),
+				e1runS("doc-n2-d3", "doc", 2, 3, "tx", o, 1, 0),
+			}
+		} else {
+			p.BudgetS = 3300
+			p.Runs = []Run{
+				e1runS("counter-n2-d6", "counter", 2, 6, "tx", o, 2, 600000),
+				e1runS("map-n2-d5", "map", 2, 5, "tx rich", o, 2, 600000),
+				e1runS("list-n2-d4", "list", 2, 4, "tx batch", o, 2, 600000),
+				e1runS("doc-n2-d4", "doc", 2, 4, "tx", o, 2, 600000),
+			}
+		}
+		return p
+	}
+	plans["C10"] = func(tier string) Plan {
+		p := Plan{ID: "C10", Level: "model_checking",
+			Rule: "breadth-first search over multi-replica histories with the extra action restore(i): replica i is replaced by a fresh instance that imported its exported meta+snapshot; " +
+				"at the restore: equal reads and equal re-export; at EVERY later state of every continuation: the whole world (views, exports, newly emitted operations, log) equals the twin " +
+				"history without the restore; at the closure of every state: server copy restored from its snapshot at every log position v + operations after v equals the whole-log replay",
+			Assume: []string{assumeE1, assumeInstr, "restore(i) is offered when replica i has nothing pending (the buffer is not part of the snapshot)"}}
+		o := []string{"restore", "snapresume", "converge"}
+		if tier == "quick" {
+			p.BudgetS = 300
+			p.Runs = []Run{
+				e1runS("counter-n2-d4", "counter", 2, 4, "", o, 1, 0),
+				e1runS("map-n2-d5", "map", 2, 5, "", o, 1, 0),
+				e1runS("list-n2-d4", "list", 2, 4, "batch", o, 1, 0),
+				e1runS("doc-n2-d4", "doc", 2, 4, "", o, 1, 0),
+			}
+		} else {
+			p.BudgetS = 3300
+			p.Runs = []Run{
+				e1runS("counter-n2-d6", "counter", 2, 6, "", o, 1, 600000),
+				e1runS("map-n2-d6", "map", 2, 6, "rich", o, 1, 600000),
+				e1runS("list-n2-d6", "list", 2, 6, "batch", o, 1, 600000),
+				e1runS("list-n3-d4", "list", 3, 4, "", o, 1, 600000),
+				e1runS("doc-n2-d5", "doc", 2, 5, "", o, 1, 600000),
+				e1runS("doc-rich-n2-d4", "doc", 2, 4, "rich", o, 1, 600000),
+			}
+		}
+		return p
+	}
+}
+
+func init() {
+	plans["C14"] = func(tier string) Plan {
+		deep := tier != "quick"
+		return Plan{ID: "C14", Level: "exploration", BudgetS: 600,
+			Rule: "every operation kind the public API can produce x every value of a finite grammar of JSON-representable Go values (numeric kinds at their boundaries, strings with " +
+				"separators/unicode/control characters, pointers, structs, typed maps and slices, empty containers, nesting); each produced operation must survive model<->typed conversion, " +
+				"protobuf, the BSON operation document and the echo service with equal id/type/body, and the stored form applied to a replica in the origin's prior state must give the " +
+				"origin's state; distinct non-trivial = distinct (operation kind, wire body) produced",
+			Assume: []string{assumeInstr, "native fuzzing of message bytes (sampling) is outside this family and not claimed"},
+			Runs:   []Run{{Name: "grammar", Check: "C14", Kind: "enum-c14", Params: map[string]bool{"deep": deep}, Shards: 16}}}
+	}
+	plans["C15"] = func(tier string) Plan {
+		p := Plan{ID: "C15", Level: "model_checking",
+			Rule: "(a) exhaustive grid over (era, lamport, client id, delimiter): identifier key injective, Compare irreflexive/antisymmetric/total/transitive (all pairs and triples of a sub-grid), " +
+				"Timestamp and OperationID orders agree, delimiter outside the order; (b) breadth-first search over multi-replica histories with transactions, failing bodies and refused calls: " +
+				"own operations numbered 1,2,3.. without gap, lamport strictly increasing, every new operation ordered after everything applied, identifiers of every exported state pairwise " +
+				"distinct with pairwise distinct index keys; deep-prefix start states bring clocks to two digits next to a batch of 12",
+			Assume: []string{assumeE1, assumeInstr, "identifier magnitudes beyond the grid are not claimed"}}
+		o := []string{"ids", "converge"}
+		if tier == "quick" {
+			p.BudgetS = 300
+			p.Runs = []Run{
+				{Name: "grid", Check: "C15", Kind: "grid", Params: map[string]int{"max_lamport": 300, "max_delim": 40, "sub": 12}, Shards: 1},
+				e1runS("counter-n2-d4", "counter", 2, 4, "tx", o, 1, 0),
+				e1runS("map-n2-d4", "map", 2, 4, "tx", o, 1, 0),
+				e1runS("list-n2-d3", "list", 2, 3, "tx batch", o, 1, 0),
+				e1runS("doc-n2-d3", "doc", 2, 3, "tx", o, 1, 0),
+				e1run("list-deep-n2-d2", "list", 2, 2, "batch", o, nil, "deep-list", 0),
+				e1run("doc-deep-n2-d2", "doc", 2, 2, "arr", o, nil, "deep-doc", 0),
+			}
+		} else {
+			p.BudgetS = 3300
+			p.Runs = []Run{
+				{Name: "grid", Check: "C15", Kind: "grid", Params: map[string]int{"max_lamport": 1200, "max_delim": 120, "sub": 40}, Shards: 1},
+				e1runS("counter-n3-d5", "counter", 3, 5, "tx", o, 2, 600000),
+				e1runS("map-n2-d5", "map", 2, 5, "tx rich", o, 2, 600000),
+				e1runS("list-n2-d4", "list", 2, 4, "tx batch", o, 2, 600000),
+				e1runS("doc-n2-d4", "doc", 2, 4, "tx", o, 2, 600000),
+				e1run("list-deep-n2-d4", "list", 2, 4, "batch", o, nil, "deep-list", 600000),
+				e1run("doc-deep-n2-d4", "doc", 2, 4, "arr", o, nil, "deep-doc", 600000),
+			}
+		}
+		return p
+	}
+}
